@@ -4,6 +4,7 @@
 // crashes, hangs or returns a field.
 // Fault enumeration per generated dump; the independent reference parser decides
 // whether the faulted bytes are (still) a grammatical dump of the target type.
+#include <algorithm>
 #include "refformat.hpp"
 #include "zoo_driver.hpp"
 
@@ -231,6 +232,23 @@ Verdict run(const Ctx & x, const Case & c, const std::optional<Fault> & only)
             }
             for (uint32_t lo = 0; lo < 256; ++lo) {
                 repl.push_back((m.value & ~0xFFu) | lo);
+            }            // every permutation of the word's four bytes (byte-swapped, half-swapped, rotated ...), its bit reversal and
+            // its complement: a word written with another byte order is not the word
+            {
+                int idx[4] = {0, 1, 2, 3};
+                do {
+                    uint32_t v = 0;
+                    for (int k = 0; k < 4; ++k) {
+                        v |= ((m.value >> (8 * idx[k])) & 0xFFu) << (8 * k);
+                    }
+                    repl.push_back(v);
+                } while (std::next_permutation(idx, idx + 4));
+                uint32_t rev = 0;
+                for (unsigned b = 0; b < 32; ++b) {
+                    rev |= ((m.value >> b) & 1u) << (31 - b);
+                }
+                repl.push_back(rev);
+                repl.push_back(~m.value);
             }
         }
         if (m.what == "tag-header" || m.what == "tag-footer") {
